@@ -13,8 +13,8 @@ ATTR = {
     "C11": {"mon": ("C11_",), "inv": ("Missing_stopret", "Missing_runret", "Extra_runret", "Late_stopret", "Late_runret")},
     "C12": {"mon": ("C12_",), "inv": ("Missing_stopret",)},
     "C13": {"mon": ("C13_",), "inv": ("EveryWriteArrives", "Missing_hstart", "Missing_hend", "Late_hstart", "Late_hend", "Extra_hstart")},
-    "C18": {"mon": ("C18_", "C07_"), "inv": ("Extra_hstart", "Extra_hend", "Missing_hstart", "Missing_hend", "Missing_eof", "Late_eof", "Late_hstart")},
-    "C17": {"mon": ("C17_",), "inv": ("Missing_ready", "Extra_ready")},
+    "C18": {"mon": ("C18_", "C07_"), "inv": ("Extra_hstart", "Extra_hend", "Extra_hunbind", "Missing_hstart", "Missing_hend", "Missing_eof", "Late_eof", "Late_hstart")},
+    "C17": {"mon": ("C17_",), "inv": ("Missing_ready", "Extra_ready", "Extra_runret")},
 }
 
 FAMILIES = {
@@ -22,7 +22,8 @@ FAMILIES = {
     "general": dict(consts={"Conns": '{"c1", "c2"}', "MaxReq": "2", "FrameKinds": '{"op", "unbind", "bad"}'}, depth=6, cfgs=[{"unbind_route": "0"}, {"unbind_route": "1"}]),
     # one connection, pipelines of up to 4 frames, sent frame by frame and in one segment
     "pipeline": dict(consts={"Conns": '{"c1"}', "MaxReq": "4", "FrameKinds": '{"op", "unbind"}'}, depth=7,
-                     cfgs=[{"unbind_route": "1", "coalesce": "1"}, {"unbind_route": "0", "coalesce": "1"}, {"unbind_route": "1"}],
+                     cfgs=[{"unbind_route": "1", "coalesce": "1"}, {"unbind_route": "0", "coalesce": "1"}, {"unbind_route": "1"},
+                           {"unbind_route": "0", "coalesce": "1", "procs": "1"}, {"unbind_route": "1", "coalesce": "1", "procs": "1"}],
                      must=lambda b: sum(1 for e in b if e["a"] == "send") >= 2),
     # Stop against idle / half-a-frame / not-reading / busy connections
     "stop": dict(consts={"Conns": '{"c1", "c2"}', "MaxReq": "2", "FrameKinds": '{"op", "partial", "unbind"}', "AllowStopReading": "TRUE"}, depth=6,
@@ -35,10 +36,10 @@ FAMILIES = {
                      cfgs=[{"unbind_route": "0", "tls": "starttls"}, {"unbind_route": "0", "tls": "starttls", "tls_delay_after": "1"}],
                      must=lambda b: starttls_ok(b)),
     # TLS listener (server authentication / client certificate required): every client kind, with a bystander
-    "tls-server": dict(consts={"Conns": '{"c1", "c2"}', "MaxReq": "1", "FrameKinds": '{"op"}', "TLSMode": '"server"'}, depth=5,
-                       cfgs=[{"unbind_route": "0", "tls": "tls"}], must=lambda b: any(e["a"] == "send" for e in b)),
-    "tls-mtls": dict(consts={"Conns": '{"c1", "c2"}', "MaxReq": "1", "FrameKinds": '{"op"}', "TLSMode": '"mtls"'}, depth=5,
-                     cfgs=[{"unbind_route": "0", "tls": "mtls"}], must=lambda b: any(e["a"] == "send" for e in b)),
+    "tls-server": dict(consts={"Conns": '{"c1", "c2"}', "MaxReq": "1", "FrameKinds": '{"op", "unbind"}', "TLSMode": '"server"'}, depth=5,
+                       cfgs=[{"unbind_route": "0", "tls": "tls"}, {"unbind_route": "1", "tls": "tls"}], must=lambda b: any(e["a"] == "send" for e in b)),
+    "tls-mtls": dict(consts={"Conns": '{"c1", "c2"}', "MaxReq": "1", "FrameKinds": '{"op", "unbind"}', "TLSMode": '"mtls"'}, depth=5,
+                     cfgs=[{"unbind_route": "0", "tls": "mtls"}, {"unbind_route": "1", "tls": "mtls"}], must=lambda b: any(e["a"] == "send" for e in b)),
     # TLS sessions that end with an orderly close / a TCP reset (the close_notify cannot be written), with a bystander
     "tls-close": dict(consts={"Conns": '{"c1", "c2"}', "MaxReq": "1", "FrameKinds": '{"op"}', "TLSMode": '"server"'}, depth=5,
                       cfgs=[{"unbind_route": "0", "tls": "tls", "reset": "1"}, {"unbind_route": "0", "tls": "tls"}],
@@ -165,10 +166,18 @@ def scripted_family(run, fam, quick):
             [R, D("c1"), D("c2"), {"a": "stopreading", "c": "c2"}, S("c2", "op"), S("c1", "partial"), stop1, stop2],
             [R, D("c1")] + [S("c1", "op") for _ in range(40)] + [stop1],
             [R, D("c1"), S("c1", "op", True), stop1, stop2, {"a": "release", "c": "c1", "i": 1}],
+            # a handler that only starts writing (16 MB to a client that does not read) after Stop was called
+            [R, D("c1"), {"a": "stopreading", "c": "c1"}, S("c1", "op", True), stop1, {"a": "release", "c": "c1", "i": 1}],
+            [R, D("c1"), D("c2"), {"a": "stopreading", "c": "c2"}, S("c2", "op", True), S("c2", "op", True), S("c1", "op", True), stop1,
+             {"a": "release", "c": "c2", "i": 2}, {"a": "release", "c": "c1", "i": 1}, {"a": "release", "c": "c2", "i": 1}],
         ]
         consts = {"Conns": '{"c1", "c2"}', "MaxReq": "41", "Stoppers": '{"s1", "s2"}', "FrameKinds": '{"op", "partial", "unbind", "starttls"}'}
         out = [(b, {"unbind_route": "0"}) for b in scen.scripted(run, plain, consts)]
         out += [(out[5][0], {"unbind_route": "0", "coalesce": "1"})]
+        # a burst of pipelined requests, all in flight at once, then Stop
+        nb = 140 if quick else 300
+        burst = [[R, D("c1")] + [S("c1", "op", True) for _ in range(nb)] + [stop1] + [{"a": "release", "c": "c1", "i": i} for i in range(nb, 0, -1)]]
+        out += [(b, {"unbind_route": "0", "coalesce": "1"}) for b in scen.scripted(run, burst, dict(consts, MaxReq=str(nb + 1), Conns='{"c1"}'))]
         # StartTLS upgrades interrupted by Stop: handler delayed before its reply; client that never starts the handshake
         stls = [
             [R, D("c1"), S("c1", "starttls", True), stop1, {"a": "release", "c": "c1", "i": 1}],
@@ -236,6 +245,22 @@ def scripted_family(run, fam, quick):
         tl = [[R, D("c1", "silent"), T("c1")], [R, D("c1", "valid"), S("c1", "op"), T("c1")], [R, D("c1", "valid"), T("c1"), stop1]]
         out += [(b, {"unbind_route": "0", "read_timeout_ms": ms, "tls": "tls"}) for b in scen.scripted(run, tl, dict(base, TLSMode='"server"'))]
         return out
+    elif fam == "starttls-adversarial":
+        # (a) a complete plaintext request glued behind the StartTLS request in the same segment: never served, the tunnel works;
+        # (b) the StartTLS handler keeps working after the upgrade while the client already sends inside the tunnel:
+        #     nothing is dispatched until the handler has returned
+        R, D = {"a": "run"}, lambda c: {"a": "dial", "c": c}
+        S = lambda c, k, hold=False: {"a": "send", "c": c, "k": k, "hold": hold}
+        rel = lambda c, i: {"a": "release", "c": c, "i": i}
+        consts = {"Conns": '{"c1", "c2"}', "MaxReq": "4", "FrameKinds": '{"starttls", "op", "unbind"}'}
+        inj = [[R, D("c1"), S("c1", "starttls"), S("c1", "op"), S("c1", "op", True), S("c1", "op"), rel("c1", 3)],
+               [R, D("c1"), D("c2"), S("c1", "starttls"), S("c2", "starttls"), S("c2", "op"), S("c1", "op"), S("c1", "unbind")]]
+        out = [(b, {"unbind_route": "0", "tls": "starttls", "inject_plain": "1"}) for b in scen.scripted(run, inj, consts)]
+        after = [[R, D("c1"), S("c1", "starttls", True), S("c1", "op"), rel("c1", 1), S("c1", "op")],
+                 [R, D("c1"), S("c1", "starttls", True), S("c1", "op"), S("c1", "op"), rel("c1", 1)],
+                 [R, D("c1"), D("c2"), S("c1", "starttls", True), S("c2", "starttls", True), S("c1", "op"), S("c2", "op"), rel("c2", 1), rel("c1", 1)]]
+        out += [(b, {"unbind_route": "0", "tls": "starttls", "tls_hold_after": "1"}) for b in scen.scripted(run, after, consts)]
+        return out * (2 if quick else 6)
     elif fam == "starttls-close":
         # upgraded sessions that end with an orderly close / a TCP reset / Unbind, idle or with a handler running
         R, D = {"a": "run"}, lambda c: {"a": "dial", "c": c}
@@ -261,7 +286,7 @@ def scripted_family(run, fam, quick):
         return [(b, {"unbind_route": "0", "tls": "starttls"}) for b in scen.scripted(run, scripts, consts)] * 3
     elif fam == "ready":
         ok_addrs = ["", "ipv6", "ipv6-bare", "host", "port-only"]
-        bad_addrs = ["in-use", "bad-noport", "bad-ipv4", "bad-ipv6", "bad-bracket", "bad-emptyport", "bad-brackets-empty", "bad-brackets-host"]
+        bad_addrs = ["in-use", "in-use-gldap", "bad-noport", "bad-ipv4", "bad-ipv6", "bad-bracket", "bad-emptyport", "bad-brackets-empty", "bad-brackets-host"]
         consts = {"Conns": '{"c1"}', "MaxReq": "1", "FrameKinds": '{"op"}'}
         good = scen.scripted(run, [[{"a": "run"}, {"a": "dial", "c": "c1"}, {"a": "send", "c": "c1", "k": "op"}, {"a": "stop", "s": "s1"}]], consts)
         failing = scen.scripted(run, [[{"a": "run"}]], dict(consts, ListenFails="TRUE"))
@@ -269,6 +294,9 @@ def scripted_family(run, fam, quick):
         for a in ok_addrs:
             for tls in ("", "tls"):
                 out.append((good[0], {"addr": a, "ready_dial": "1", "tls": tls, "unbind_route": "0"}))
+        # a TLS configuration without any certificate: the listener exists (every handshake fails): Ready, and it stays that way
+        only_run = scen.scripted(run, [[{"a": "run"}]], consts)
+        out.append((only_run[0], {"addr": "", "ready_dial": "1", "tls": "emptycfg", "unbind_route": "0", "settle_ms": "300"}))
         for a in bad_addrs:
             for tls in ("", "tls"):
                 out.append((failing[0], {"addr": a, "ready_dial": "1", "tls": tls, "unbind_route": "0", "expect_run_error": "1"}))
@@ -284,7 +312,7 @@ def scripted_family(run, fam, quick):
     return [(b, dict(cfgs[n % len(cfgs)])) for n, b in enumerate(behs)]
 
 
-SCRIPTED = {"deep", "manyconns", "ready", "stopstates", "starttls2", "starttls-inflight", "starttls-close", "timeout"}
+SCRIPTED = {"deep", "manyconns", "ready", "stopstates", "starttls2", "starttls-inflight", "starttls-close", "timeout", "starttls-adversarial"}
 
 
 def run_families(run, names, cap):
